@@ -522,14 +522,24 @@ pub fn gen_state(rng: &mut Rng, inst: &InstSpec) -> Vec<(u64, F)> {
     fs.extend(inst.objective.iter());
     fs.extend(inst.constraints.iter().filter_map(|c| c.function.as_ref()));
     fs.extend(inst.removed.iter().filter_map(|r| r.constraint.as_ref()).filter_map(|c| c.function.as_ref()));
+    // judged on the representation as given: terms of degree two or more count even when they cancel (the SDK adds
+    // them up in floating point, where a huge product swallows the low bits of a large value)
     for f in fs {
-        {
-            let p = f.poly();
-            for (m, _) in p.0.iter() {
-                if m.len() >= 2 {
-                    nonlinear.extend(m.iter().copied());
+        match f {
+            FuncSpec::Quadratic { entries, .. } => {
+                for (i, j, _) in entries {
+                    nonlinear.insert(*i);
+                    nonlinear.insert(*j);
                 }
             }
+            FuncSpec::Polynomial { terms } => {
+                for (m, _) in terms {
+                    if m.len() >= 2 {
+                        nonlinear.extend(m.iter().copied());
+                    }
+                }
+            }
+            _ => {}
         }
     }
     for (_, f) in &inst.deps {
